@@ -6,7 +6,7 @@ CONSTANTS
   Owners = {"u1"}
   Symbols = {"aaa"}
   Scales = {1}
-  Initials = {0, 2}
+  Initials = {2}
   Maxes = {3}
   Amounts = {5, 10}
   EditMaxes = {0, 1, 3}
@@ -14,7 +14,7 @@ CONSTANTS
   MintTo = {"", "u3"}
   TransferTo = {"u2", "feepool"}
   MaxTokens = 1
-  InitStake = 9
+  InitStake = 7
   BaseFee = 5
   TaxNum = 2
   TaxDen = 5
